@@ -1,3 +1,5 @@
+import GPy.C11.Gen
+import GPy.C18.Gen
 import GPy.C09.Gen
 import GPy.C08.Gen
 import GPy.C14.Gen
@@ -37,6 +39,8 @@ def main (args : List String) : IO UInt32 := do
     | "C14" => GPy.C14.genMain tier seed; return 0
     | "C08" => GPy.C08.genMain tier seed; return 0
     | "C09" => GPy.C09.genMain tier seed; return 0
+    | "C18" => GPy.C18.genMain tier seed; return 0
+    | "C11" => GPy.C11.genMain tier seed; return 0
     | _ => IO.eprintln s!"unknown property {prop}"; return 2
   | ["C12verify"] => GPy.C12.verifyMain; return 0
   | _ => IO.eprintln "usage: gpymodel <Cxx> <quick|thorough> <seed>"; return 2
